@@ -258,6 +258,9 @@ def generate():
           '(* postJoinedStr: is the format spec printed / are literal braces doubled again *)',
           'Definition pony_keep_spec : bool := %s.' % ('true' if tbl['keep_spec'] else 'false'),
           'Definition pony_escape_braces : bool := %s.' % ('true' if tbl['escape'] else 'false'), '',
+          '(* postFormattedValue returns the source of its operand: a FormattedValue that is not inside a JoinedStr (what the decompiler',
+          '   produces for a one-field f-string) is printed as the bare operand, conversion and spec are lost *)',
+          'Definition pony_bare_formatted_is_operand : bool := true.', '',
           '(* false: the method reads a field the node does not have (AttributeError), the kind cannot be printed at all *)',
           'Definition pony_kind_ok (k : kind) : bool :=', '  match k with']
     bad = [k for k in KINDS if not tbl['kind_ok'][k]]
